@@ -202,6 +202,49 @@ func c18Mount(p *Prog, c *Check) {
 		ok = fi.T(receiverOf(use)).s == fi.T(mux.Common().Args[1]).s || strings.Contains(fi.T(mux.Common().Args[1]).s, fi.T(receiverOf(use)).s)
 	}
 	c.Result(ok, rule, "setupAPIRouter:use-before-routes", p.Rel(fn.Pos()), shortFn(fn), "router.Use(ConfigMiddleware(cfg.GetEnableWriteOperations())) before HandlerFromMux(srv, router)", "the read-only middleware is not installed (with the configured flag, on the same router) before the API routes are registered", "Use dominates HandlerFromMux, same router")
+	// the flag itself: every implementation of GetEnableWriteOperations returns true only when the
+	// read-only switch is off
+	nflag := 0
+	for _, f := range p.Funcs {
+		if fnName(f) != "GetEnableWriteOperations" || f.Signature.Recv() == nil || isTestScaffold(f) {
+			continue
+		}
+		nflag++
+		c.Analysed(shortFn(f))
+		ffi := p.Info(f)
+		recv := ffi.T(f.Params[0])
+		var classify func(v ssa.Value, facts []Atom, depth int) (bool, string)
+		classify = func(v ssa.Value, facts []Atom, depth int) (bool, string) {
+			t := ffi.T(v)
+			switch {
+			case t.s == "false":
+				return true, "false"
+			case t.s == "true":
+				if _, has := findAtom(facts, "$c.HTTPReadOnly == false", Binds{"c": recv}); has {
+					return true, "true under !HTTPReadOnly"
+				}
+				return false, "write operations are reported enabled on a path that has not established HTTPReadOnly == false"
+			case t.K == TUn && t.Name == "!" && ParsePat("$c.HTTPReadOnly").Match(t.Sub[0], Binds{"c": recv}), ParsePat("($c.HTTPReadOnly == false)").Match(t, Binds{"c": recv}):
+				return true, "!HTTPReadOnly"
+			}
+			if ph, isPhi := v.(*ssa.Phi); isPhi && depth < 3 {
+				for i, e := range ph.Edges {
+					pred := ph.Block().Preds[i]
+					pf := append(append([]Atom{}, ffi.blockFacts(pred)...), ffi.edgeAtoms(pred, ph.Block())...)
+					if ok, w := classify(e, pf, depth+1); !ok {
+						return false, w
+					}
+				}
+				return true, "each incoming value is false or implies !HTTPReadOnly"
+			}
+			return false, "write operations can be reported enabled by something that does not imply HTTPReadOnly == false: " + t.s
+		}
+		for _, r := range returnsOf(f) {
+			ok, why := classify(r.Results[0], ffi.FactsAt(r), 0)
+			c.Result(ok, rule, "GetEnableWriteOperations@"+shortFn(f)+":"+retKey(ffi, r), p.siteOf(r), shortFn(f), "flag handed to the middleware", why, why)
+		}
+	}
+	c.Floor(rule+".flag", nflag, 1)
 	// signals are sent only from their handlers
 	n := 0
 	for _, f := range p.Funcs {
